@@ -314,10 +314,22 @@ def _circuit_job(job):
                     ok = False
         ctx.prove("the object built from a circuit generates precisely the signed stabilizer group of circuit|0..0>", 1 if ok else 0, info=dict(gates=gates))
         ctx.prove("the input circuit is not modified", 1 if c07.circuit_fingerprint(qc) == fp else 0, info=dict(gates=gates))
+        if n >= 2:
+            from qiskit import QuantumCircuit, QuantumRegister
+            qc2 = QuantumCircuit(QuantumRegister(1, "a"), QuantumRegister(n - 1, "b"))
+            for g, q in gates:
+                getattr(qc2, g)(*q)
+            qc2.barrier()
+            try:
+                s2 = st.Stabilizer(qc2)
+                same = np.array_equal(np.asarray(s2.R), R) and np.array_equal(np.asarray(s2.S), S) and np.array_equal(np.asarray(s2.phases), ph)
+            except EXC as e:
+                same = False
+            ctx.prove("the same program on a circuit with two quantum registers (and a barrier) denotes the same signed group", 1 if same else 0, info=dict(gates=gates, multireg=True))
         return {"gates": gates if len(gates) <= 3 else len(gates)}
     res = explore(fn, mode="fork")
     for v in res.violations[:3]:
-        cands.append(dict(kind="circuit", n=n, gates=v["info"]["gates"], label=v["label"]))
+        cands.append(dict(kind="circuit", n=n, gates=v["info"]["gates"], multireg=bool(v["info"].get("multireg")), label=v["label"]))
     res.violations = []
     res.leaves = res.leaves[:1]
     return dict(res=res.to_json(), cands=cands)
@@ -471,10 +483,12 @@ def replay(case):
         return False, "graph state ok"
     if kind == "circuit":
         gates = [(g, list(q)) for g, q in case["gates"]]
-        from qiskit import QuantumCircuit
-        qc = QuantumCircuit(n)
+        from qiskit import QuantumCircuit, QuantumRegister
+        qc = QuantumCircuit(QuantumRegister(1, "a"), QuantumRegister(n - 1, "b")) if case.get("multireg") else QuantumCircuit(n)
         for g, q in gates:
             getattr(qc, g)(*q)
+        if case.get("multireg"):
+            qc.barrier()
         try:
             s = Stabilizer(qc)
         except Exception as e:
